@@ -76,10 +76,11 @@ Section Machine.
   Variable pop_cond : S -> option (bool * S).
   Variable pop_index : S -> option (N * S).
   Variable unwind : N -> S -> S.
+  Variable leave : S -> S.
 
   Notation res := (res S halt).
   Notation step := (step S halt).
-  Notation close := (close S halt).
+  Notation close := (close S halt leave).
 
   Lemma close_ext (r : res) f g : (forall s, f s = g s) -> close r f = close r g.
   Proof. intros H. destruct r as [s|[|k] s|h s| |]; cbn [Sem.close]; auto. Qed.
@@ -87,11 +88,12 @@ Section Machine.
   (* ---------------------------------------------------------------- one semantics *)
   Section One.
     Variable sem : wins -> S -> step.
+    Variable enter : blockty -> S -> S.
     Variable arity loop_arity : blockty -> N.
     Variable rr : rt -> S -> res.
 
-    Notation evt := (evt S halt pop_cond pop_index unwind sem arity loop_arity rr).
-    Notation evl := (evl S halt pop_cond pop_index unwind sem arity loop_arity rr).
+    Notation evt := (evt S halt pop_cond pop_index unwind enter leave sem arity loop_arity rr).
+    Notation evl := (evl S halt pop_cond pop_index unwind enter leave sem arity loop_arity rr).
 
     Definition evl_inner :=
       fix evl (l : list rt) (s : S) {struct l} : res :=
@@ -106,19 +108,19 @@ Section Machine.
     Qed.
 
     Lemma evt_block bt b l e s :
-      evt (RBlock bt b l e) s = close (evl b s) (fun s' => Fall (unwind (arity bt) s')).
+      evt (RBlock bt b l e) s = close (evl b (enter bt s)) (fun s' => Fall (unwind (arity bt) s')).
     Proof. rewrite <- evl_inner_eq. reflexivity. Qed.
     Lemma evt_loop bt b l e s :
       evt (RLoop bt b l e) s =
-      close (evl b s) (fun s' => rr (RLoop bt b l e) (unwind (loop_arity bt) s')).
+      close (evl b (enter bt s)) (fun s' => rr (RLoop bt b l e) (unwind (loop_arity bt) s')).
     Proof. rewrite <- evl_inner_eq. reflexivity. Qed.
     Lemma evt_if bt th el l e s :
       evt (RIf bt th el l e) s =
       match pop_cond s with
       | None => Stuck
-      | Some (true, s') => close (evl th s') (fun s'' => Fall (unwind (arity bt) s''))
+      | Some (true, s') => close (evl th (enter bt s')) (fun s'' => Fall (unwind (arity bt) s''))
       | Some (false, s') =>
-          close (match el with Some (_, eb) => evl eb s' | None => Fall s' end)
+          close (match el with Some (_, eb) => evl eb (enter bt s') | None => Fall (enter bt s') end)
                 (fun s'' => Fall (unwind (arity bt) s''))
       end.
     Proof.
@@ -159,7 +161,8 @@ Section Machine.
       exact (H _ _ E).
     Qed.
 
-    (* `if` without `else` = `if` with an empty `else` *)
+    (* `if` without `else` = `if` with an empty `else`: the absent arm is entered and left,
+       [leave (enter bt s')], exactly as the empty one *)
     Lemma evt_else_synthesis bt th l e le s :
       evt (RIf bt th None l e) s = evt (RIf bt th (Some (le, [])) l e) s.
     Proof. rewrite !evt_if. reflexivity. Qed.
@@ -168,29 +171,31 @@ Section Machine.
   (* ---------------------------------------------------------------- input vs output semantics *)
   Section Equiv.
     Variable sem_in sem_out : wins -> S -> step.
+    Variable enter_in enter_out : blockty -> S -> S.
     Variable arity_in arity_out loop_arity_in loop_arity_out : blockty -> N.
 
     (* renumbering is unobservable: the trusted interface to the WebAssembly semantics.
        [sem_out (WOp o)] stands for the meaning, in the OUTPUT module, of the re-encoded operator
        [nf_op cx ecx o]; [arity_out bt] for that of [nf_bt cx ecx bt] (see [nf_equiv_renamed]). *)
     Hypothesis H_op : forall o s, sem_out (WOp o) s = sem_in (WOp o) s.
+    Hypothesis H_enter : forall bt s, enter_out bt s = enter_in bt s.
     Hypothesis H_arity : forall bt, arity_out bt = arity_in bt.
     Hypothesis H_loop_arity : forall bt, loop_arity_out bt = loop_arity_in bt.
     (* return / unreachable never fall through *)
     Hypothesis H_term : forall o s, marks_unreachable o = true -> exists h s', sem_in (WOp o) s = Halt h s'.
 
-    Notation evt_in := (evt S halt pop_cond pop_index unwind sem_in arity_in loop_arity_in).
-    Notation evl_in := (evl S halt pop_cond pop_index unwind sem_in arity_in loop_arity_in).
-    Notation evt_out := (evt S halt pop_cond pop_index unwind sem_out arity_out loop_arity_out).
-    Notation evl_out := (evl S halt pop_cond pop_index unwind sem_out arity_out loop_arity_out).
-    Notation eval_t_in := (eval_t S halt pop_cond pop_index unwind sem_in arity_in loop_arity_in).
-    Notation eval_t_out := (eval_t S halt pop_cond pop_index unwind sem_out arity_out loop_arity_out).
-    Notation eval_in := (eval S halt pop_cond pop_index unwind sem_in arity_in loop_arity_in).
-    Notation eval_out := (eval S halt pop_cond pop_index unwind sem_out arity_out loop_arity_out).
-    Notation rr_of_in := (rerun_of S halt pop_cond pop_index unwind sem_in arity_in loop_arity_in).
-    Notation rr_of_out := (rerun_of S halt pop_cond pop_index unwind sem_out arity_out loop_arity_out).
-    Notation nofall_in := (nofall sem_in arity_in loop_arity_in).
-    Notation nofall_t_in := (nofall_t sem_in arity_in loop_arity_in).
+    Notation evt_in := (evt S halt pop_cond pop_index unwind enter_in leave sem_in arity_in loop_arity_in).
+    Notation evl_in := (evl S halt pop_cond pop_index unwind enter_in leave sem_in arity_in loop_arity_in).
+    Notation evt_out := (evt S halt pop_cond pop_index unwind enter_out leave sem_out arity_out loop_arity_out).
+    Notation evl_out := (evl S halt pop_cond pop_index unwind enter_out leave sem_out arity_out loop_arity_out).
+    Notation eval_t_in := (eval_t S halt pop_cond pop_index unwind enter_in leave sem_in arity_in loop_arity_in).
+    Notation eval_t_out := (eval_t S halt pop_cond pop_index unwind enter_out leave sem_out arity_out loop_arity_out).
+    Notation eval_in := (eval S halt pop_cond pop_index unwind enter_in leave sem_in arity_in loop_arity_in).
+    Notation eval_out := (eval S halt pop_cond pop_index unwind enter_out leave sem_out arity_out loop_arity_out).
+    Notation rr_of_in := (rerun_of S halt pop_cond pop_index unwind enter_in leave sem_in arity_in loop_arity_in).
+    Notation rr_of_out := (rerun_of S halt pop_cond pop_index unwind enter_out leave sem_out arity_out loop_arity_out).
+    Notation nofall_in := (nofall sem_in enter_in arity_in loop_arity_in).
+    Notation nofall_t_in := (nofall_t sem_in enter_in arity_in loop_arity_in).
 
     (* a tree after which nf marks the sequence unreachable never falls through *)
     Lemma term_nofall rr t : snd (nf_rt false t) = true -> nofall_t_in rr t.
@@ -243,19 +248,19 @@ Section Machine.
         - cbn [nf_rt fst]. rewrite evl_single. reflexivity.
         - cbn [nf_rt fst]. rewrite evl_single. reflexivity.
         - rewrite nf_rt_block. cbn [fst keepr]. rewrite evl_single, !evt_block.
-          rewrite (El_of_Forall _ HF s). apply close_ext. intros s'. now rewrite H_arity.
+          rewrite H_enter, (El_of_Forall _ HF _). apply close_ext. intros s'. now rewrite H_arity.
         - rewrite nf_rt_loop. cbn [fst keepr]. rewrite evl_single, !evt_loop.
-          rewrite (El_of_Forall _ HF s). apply close_ext. intros s'. now rewrite H_loop_arity, H_rr.
+          rewrite H_enter, (El_of_Forall _ HF _). apply close_ext. intros s'. now rewrite H_loop_arity, H_rr.
         - destruct el as [[le eb]|].
           + rewrite nf_rt_if_some. cbn [fst keepr]. rewrite evl_single, !evt_if.
             destruct (pop_cond s) as [[[|] s1]|]; [| |reflexivity].
-            * rewrite (El_of_Forall _ HFt s1). apply close_ext. intros s'. now rewrite H_arity.
-            * cbn [optP snd] in HFe. rewrite (El_of_Forall _ HFe s1).
+            * rewrite H_enter, (El_of_Forall _ HFt _). apply close_ext. intros s'. now rewrite H_arity.
+            * cbn [optP snd] in HFe. rewrite H_enter, (El_of_Forall _ HFe _).
               apply close_ext. intros s'. now rewrite H_arity.
           + rewrite nf_rt_if_none. cbn [fst keepr]. rewrite evl_single, !evt_if.
             destruct (pop_cond s) as [[[|] s1]|]; [| |reflexivity].
-            * rewrite (El_of_Forall _ HFt s1). apply close_ext. intros s'. now rewrite H_arity.
-            * cbn [Sem.evl]. apply close_ext. intros s'. now rewrite H_arity.
+            * rewrite H_enter, (El_of_Forall _ HFt _). apply close_ext. intros s'. now rewrite H_arity.
+            * cbn [Sem.evl]. rewrite H_enter. apply close_ext. intros s'. now rewrite H_arity.
       Qed.
       Lemma El_all l : El l.
       Proof. apply El_of_Forall, Forall_forall. intros t _. apply Et_all. Qed.
@@ -341,22 +346,25 @@ Section Machine.
     Variable cx : pctx.
     Variable ecx : ectx.
     Variable sem_in sem_out' : wins -> S -> step.
+    Variable enter_in enter_out' : blockty -> S -> S.
     Variable arity_in arity_out' loop_arity_in loop_arity_out' : blockty -> N.
     Definition sem_ren (w : wins) : S -> step :=
       match w with WOp o => sem_out' (nf_op cx ecx o) | w => sem_out' w end.
     Hypothesis H_op : forall o s, sem_out' (nf_op cx ecx o) s = sem_in (WOp o) s.
+    Hypothesis H_enter : forall bt s, enter_out' (nf_bt cx ecx bt) s = enter_in bt s.
     Hypothesis H_arity : forall bt, arity_out' (nf_bt cx ecx bt) = arity_in bt.
     Hypothesis H_loop_arity : forall bt, loop_arity_out' (nf_bt cx ecx bt) = loop_arity_in bt.
     Hypothesis H_term : forall o s, marks_unreachable o = true -> exists h s', sem_in (WOp o) s = Halt h s'.
 
     Theorem nf_equiv_renamed : forall fuel l s,
-      eval S halt pop_cond pop_index unwind sem_ren
+      eval S halt pop_cond pop_index unwind (fun bt => enter_out' (nf_bt cx ecx bt)) leave sem_ren
            (fun bt => arity_out' (nf_bt cx ecx bt)) (fun bt => loop_arity_out' (nf_bt cx ecx bt))
            fuel (fst (nf_rt_list false l)) s
-      = eval S halt pop_cond pop_index unwind sem_in arity_in loop_arity_in fuel l s.
+      = eval S halt pop_cond pop_index unwind enter_in leave sem_in arity_in loop_arity_in fuel l s.
     Proof.
       intros fuel l s. apply nf_equiv.
       - intros o s0. cbn [sem_ren]. apply H_op.
+      - exact H_enter.
       - exact H_arity.
       - exact H_loop_arity.
       - exact H_term.
@@ -467,8 +475,10 @@ Module Toy.
     match fst s with O => Some (false, s) | Datatypes.S k => Some (true, (k, snd s)) end.
   Definition tindex (s : St) : option (N * St) := Some (N.of_nat (fst s), (O, snd s)).
   Definition tunwind (n : N) (s : St) : St := s.
+  Definition tenter (bt : blockty) (s : St) : St := s.   (* identity hooks: the semantics without label records *)
+  Definition tleave (s : St) : St := s.
   Definition tarity (bt : blockty) : N := 0%N.
-  Definition teval := eval St unit tcond tindex tunwind tsem tarity tarity.
+  Definition teval := eval St unit tcond tindex tunwind tenter tleave tsem tarity tarity.
 
   (* block { loop { drop ; nop ; br_if 0 ; drop ; drop } ; br 0 ; drop } ; return ; drop *)
   Definition prog : list rt :=
